@@ -659,12 +659,57 @@ static PlanOp random_op(Rng& r, const OpDef* d) {
   return op;
 }
 
+// number of (operation definition, function) cells that match the generation options
+static uint64_t count_cells(const GenOpts& go, std::vector<std::pair<const OpDef*, int>>* out) {
+  uint64_t n = 0;
+  for (size_t i = 0; i < h::n_defs(); ++i) {
+    const OpDef* d = h::def_at(i);
+    if (!go.only_family.empty() && go.only_family.find(d->family[0]) == std::string::npos) continue;
+    if (!go.only_op.empty() && strncmp(d->name, go.only_op.c_str(), go.only_op.size()) != 0) continue;
+    for (int f = 0; f < d->nfn; ++f) {
+      if (out) out->push_back({d, f});
+      ++n;
+    }
+  }
+  return n;
+}
+
 static void gen_workload(uint64_t seed, uint64_t widx, const GenOpts& go, Plan& pl) {
   pl = Plan();
   Rng r{mix64(mix64(seed ^ 0xC18C18C18ull) + widx * 0x9e3779b97f4a7c15ull)};
   pl.seed = mix64(seed) ^ widx;
   pl.pool_seed = r.u64();
   pl.warm = (int)r.below(2);
+  // Systematic part: the first workloads of every sweep are one 10..16-thread crowd per cell (every
+  // thread calls the same function once or twice, on the same or on different shared objects), so
+  // that each function of the registry meets a full crowd in every run of the check, not only when
+  // the random part happens to draw it.  Everything after that is the random (swarm) part.
+  {
+    std::vector<std::pair<const OpDef*, int>> cells;
+    uint64_t nc = count_cells(go, &cells);
+    if (widx < nc) {
+      const OpDef* d = cells[(size_t)widx].first;
+      int fn = cells[(size_t)widx].second;
+      int nt = d->heavy ? 10 : 10 + (int)r.below(7);
+      pl.tasks.resize((size_t)nt);
+      PlanOp base = random_op(r, d);
+      base.p[0] = fn;
+      base.rep = 1;
+      bool same_objects = r.coin(0.5);
+      for (int t = 0; t < nt; ++t) {
+        PlanOp op = base;
+        if (!same_objects) {
+          op.p[1] = r.below(d->nobj);
+          op.p[2] = r.below(d->nobj);
+        }
+        op.salt = r.u64();
+        op.throw_at = (d->has_callback && r.coin(0.1)) ? (int)r.below(6) : -1;
+        pl.tasks[(size_t)t].push_back(op);
+        if (!d->heavy && r.coin(0.5)) pl.tasks[(size_t)t].push_back(op);
+      }
+      return;
+    }
+  }
   // swarm: number of tasks
   double u = r.unit();
   int nt = u < 0.45 ? 2 : u < 0.68 ? 3 : u < 0.82 ? 4 : u < 0.92 ? 5 + (int)r.below(4) : 9 + (int)r.below(8);
